@@ -102,6 +102,11 @@ func screenProps(r *core.Run, prop string) {
 				if !r.Quick() && hi%3 == 0 {
 					w, h, ops = shadow.Gen(rg, shadow.GenOpts{MaxW: 40, MaxH: 12, Urls: true, SuspendResume: true, WriteFail: prop == "C13"})
 				}
+				if se.family() == "insert-char-trick" && hi%2 == 1 {
+					// the entries that paint the bottom-right cell through an insert-character detour:
+					// half of their histories concentrate on the last columns of the bottom row
+					w, h, ops = shadow.Gen(rg, shadow.GenOpts{MaxW: 12, MaxH: 3, Urls: true, Corner: true, WriteFail: prop == "C13"})
+				}
 				st := &execStats{}
 				v := execHistory(se, w, h, ops, execOpts{props: armed, stats: st})
 				r.Count("cells_compared", st.cellsCompared)
